@@ -16,7 +16,7 @@ RULE = ("random cfg-free definitions over the documented language (all object ki
         "`cargo check` per batch with every diagnostic mapped to its definition; distinct = distinct feature vectors "
         "(object kinds, depth, refs, conversions, accesses, address types, stride signs)")
 
-KNOWN_CLASSES = ("D7", "D8", "D9", "D12", "D16", "D17", "D20", "D21")
+KNOWN_CLASSES = ("D7", "D8", "D9", "D12", "D16", "D17", "D20", "D21", "D22")
 
 
 def features(d):
@@ -82,8 +82,7 @@ def predicted_classes(d):
                 cls.add("D8")
         if o["kind"] == "ref":
             ov = o["override"]
-            if ov["kind"] == "block":
-                cls.add("D9")
+            # (block refs: D9 is repaired in /repo — a duplicated block struct would now be an unexpected error)
             if ov["kind"] == "register" and o["target"] in regs:
                 t = regs[o["target"]]
                 acc = ov.get("access") or t["access"] or cfg.get("default_register_access") or "RW"
@@ -93,23 +92,34 @@ def predicted_classes(d):
     return cls
 
 
+def kid(k):
+    """known-finding id of a class tag (D22L = the lint half of D22)"""
+    return "D22" if k == "D22L" else k
+
+
 def classify_error(diag):
     code = (diag.get("code") or {}).get("code")
     msg = diag.get("message", "")
+    rendered = diag.get("rendered") or ""
+    addr_ctx = "base_address" in rendered or "callback(" in rendered      # inside the emitted address arithmetic
     if code == "E0599" and "no method named" in msg:
         return "D7"
     if code == "E0277" and "Neg" in msg:
-        return "D8"
-    if code == "E0600" and "cannot apply unary operator `-`" in msg:
-        return "D8"
+        return "D22" if addr_ctx else "D8"
+    if code == "E0600" and "cannot apply unary operator `-`" in msg and addr_ctx:
+        return "D22"
     if code in ("E0428", "E0119", "E0592", "E0034", "E0124") :
         return "D9"
     if code == "E0081":
         return "D12"
     if code == "E0600" or "cannot apply unary operator" in msg or code == "E0080":
         return "D16"
-    if code == "overflowing_literals" and re.search(r"literal out of range for `i\d+`", msg) and " = " in (diag.get("rendered") or ""):
+    if code == "overflowing_literals" and re.search(r"literal out of range for `i\d+`", msg) and " = " in rendered and not addr_ctx:
         return "D17"
+    if code == "overflowing_literals" and addr_ctx:
+        return "D22L"
+    if code == "arithmetic_overflow" and addr_ctx:
+        return "D22L"
     return "other:" + str(code)
 
 
@@ -194,6 +204,37 @@ def rename_enum_like_toplevel(rng, d):
         rng.choice(enums)["name"] = rng.choice(tops)
 
 
+def inject_address_literal(rng, d):
+    """D22: an address / offset / stride / index literal that does not fit the type of its position although every
+    FINAL address fits (the internal address type is sized for the final addresses only).  Whether the shape really
+    is in the class depends on the rest of the device (its internal address type): Emit.v decides on the real MIR."""
+    cfg = d["config"]
+    at = cfg.get("register_address_type") or "u8"
+    lo, hi = adef.INT_RANGE[at]
+    lo, hi = max(lo, -2 ** 31), min(hi, 2 ** 31 - 1)      # (the generator's own i64 arithmetic overflows near the i64 limits: D3c)
+    fld = [adef.mk_field("val", "uint", 0, 8)]
+    unsigned = lo == 0
+    shape = rng.choice(["neg_in_block", "neg_in_block", "big_stride", "product", "index", "big_in_neg_block"])
+    top = min(hi, 60000)
+    if shape == "neg_in_block":
+        off = top - rng.choice([0, 1, 5])
+        a = -rng.choice([1, 2, 3])
+        d["objects"].append(adef.mk_block("Rzw", [adef.mk_register("Rzv", a, 8, fld)], address_offset=off))
+    elif shape == "big_stride":
+        d["objects"].append(adef.mk_register("Rzv", top - 7, 8, fld, repeat={"count": 1, "stride": rng.choice([300, 70000, 2 ** 33])},
+                                             access=rng.choice([None, "WO"])))
+    elif shape == "product" and not unsigned:
+        s_ = (hi + 1) // 2 + rng.choice([0, 1, 20])
+        if -s_ >= lo and s_ <= hi:
+            d["objects"].append(adef.mk_register("Rzv", -s_, 8, fld, repeat={"count": 3, "stride": s_}, access=rng.choice([None, "RO", "WO"])))
+    elif shape == "index":
+        d["objects"].append(adef.mk_register("Rzv", top - 9, 8, fld, repeat={"count": rng.choice([130, 260]), "stride": 0},
+                                             allow_address_overlap=True, access=rng.choice([None, "RO"])))
+    elif shape == "big_in_neg_block" and not unsigned and hi >= 32767:
+        d["objects"].append(adef.mk_block("Rzw", [adef.mk_register("Rzv", 40000 if hi == 32767 else hi + 1 + 30000, 8, fld)],
+                                          address_offset=-30000))
+
+
 def add_boundary_literal(rng, d):
     """An object whose address LITERAL sits exactly on / next to an integer-width boundary (every literal the emitter
     writes must be representable in the type of its position: internal address type, address type)."""
@@ -240,6 +281,8 @@ def run(ctx):
             d["config"]["defmt_feature"] = "defmt"
         if rng.random() < 0.10:
             inject_identifier_clash(rng, d)
+        if rng.random() < 0.10:
+            inject_address_literal(rng, d)
         syntax = rng.choice(["dsl", "dsl", "json", "yaml", "toml"])
         if d.pop("_manifest_only", False) and syntax == "dsl":
             syntax = rng.choice(["json", "yaml", "toml"])
@@ -309,7 +352,7 @@ def run(ctx):
     per_mod = collections.defaultdict(list)
     other_errors = []
     mods = {}
-    LINT = {"D17"}
+    LINT = {"D17", "D22L"}
     PY = {"D7", "D9", "D12", "D16", "D17"}          # classes the python oracle computes from the abstract definition
     pred_of = {}
     for c in accepted:
@@ -369,14 +412,14 @@ def run(ctx):
             kinds = (kinds - {"D9"}) | {"D20"}
             if "D20" in known:          # everything else in that module is a consequence of the name being defined twice
                 kinds = {k for k in kinds if k == "D20" or k in pred}
-        unexpected = [k for k in kinds if not (k in pred and k in known)]
+        unexpected = [k for k in kinds if not (k in pred and kid(k) in known)]
         if unexpected:
             e0 = ([e for e in errs if classify_error(e) in unexpected] or errs)[0]
             viol.append((c, "accepted definition does not type-check", {"error": e0.get("message"), "code": (e0.get("code") or {}).get("code"),
                                                                         "rendered": (e0.get("rendered") or "")[:1500]}))
         for k in kinds:
-            if k in pred and k in known:
-                known_seen[k] += 1
+            if k in pred and kid(k) in known:
+                known_seen[kid(k)] += 1
     if other_errors and not per_mod:
         viol.append(({"syntax": None, "text": ""}, "probe crate failed outside the generated modules", other_errors[:3]))
     known_seen.update(parse_known)
